@@ -196,11 +196,33 @@ Theorem ccitt_mode_table : mode_table_ok = true.
 Proof. exact mode_table_check. Qed.
 Print Assumptions ccitt_mode_table.
 
-(* whole rows in two-dimensional coding: the statement at full strength.  Proved so far: the run decoder of the
-   horizontal mode (g4_full_run_rt, full_run_complete_iff, full_run_bound) and the mode table (ccitt_mode_table);
-   the executable model CCITT2D.v (pass / vertical / horizontal modes, EOFB, byte alignment, reference row handling)
-   is tied to the Go code by cross round trip and damaged code streams.  Missing: the induction over the mode
-   codes of a row (positions a0/a1/a2/b1/b2 in step, painted pixels = the row). *)
+(* a row in two-dimensional coding, given its reference row: the decoder, fed the mode codes the encoder writes
+   (pass / vertical / horizontal with its two runs), stays in step with the encoder - same a0 and colour after
+   every code, no forward-progress error, exactly the row's bits consumed (anything may follow) - and arrives at the
+   encoder's final position.  [refc]/[linec] are the changing elements of the reference row and of the coding row. *)
+Theorem g4_row_sync_partial : forall p ref row fuelE a0 cur pa pc line r rb tail,
+  let cols := Z.of_N (g_cols p) in
+  let refc := changing p (row_px p ref) in
+  let linec := changing p (row_px p row) in
+  (-1 <= a0)%Z -> (a0 <> pa \/ cur <> pc) -> good r rb ->
+  real r rb = enc2d fuelE p refc linec cols a0 cur ++ tail ->
+  exists r' rb' line' pa' pc', good r' rb' /\ real r' rb' = tail /\
+    (fst (enc2d_end fuelE p refc linec cols a0 cur) <> pa' \/ snd (enc2d_end fuelE p refc linec cols a0 cur) <> pc') /\
+    forall f, dec2d (fuelE + f) p refc cols a0 cur pa pc line r =
+      dec2d f p refc cols (fst (enc2d_end fuelE p refc linec cols a0 cur)) (snd (enc2d_end fuelE p refc linec cols a0 cur))
+            pa' pc' line' r'.
+Proof.
+  exact (fun p ref row => g4_row_sync p _ _ (-1)%Z (-1)%Z
+           (proj1 (changing_ok p ref)) (proj2 (changing_ok p ref)) (proj1 (changing_ok p row)) (proj2 (changing_ok p row))).
+Qed.
+Print Assumptions g4_row_sync_partial.
+
+(* whole images in two-dimensional coding: the statement at full strength.  Proved: the run decoder of the
+   horizontal mode (g4_full_run_rt, full_run_complete_iff, full_run_bound), the mode table (ccitt_mode_table) and
+   g4_row_sync_partial.  Missing for g4_rt_all: that the pixels painted along the way are the row's (needs the
+   colour-parity reading of changing elements), that the encoder's fuel reaches the end of the row, EOFB / byte
+   alignment / reference-row bookkeeping over the rows.  The executable model CCITT2D.v is tied to the Go code by
+   cross round trip and damaged code streams. *)
 Definition g4_rt_all : Prop := forall p rows,
   (0 < g_cols p)%N -> Forall (row_ok p) rows ->
   (g_maxrows p = 0%nat \/ (length rows <= g_maxrows p)%nat) ->
